@@ -1,5 +1,117 @@
-"""Self-audit (thorough tier): placeholder until the variant tables exist."""
+"""Self-audit of the checkers (thorough tier / `pyhfsa selftest`).
+
+Each variant is a one-site textual edit of a scratch copy of src/pyhf (under
+/dev/shm or $TMPDIR, removed immediately).  'fire' variants break a rule and
+must be reported with exit 1 naming that rule; 'silent' variants are
+behaviour-preserving and must leave the verdict unchanged.  Nothing is
+executed from the copy: it is only parsed by the same checker.
+
+Audit results never change a check's exit status: they are reported in the
+evidence (`audit` key) and on stdout as AUDIT lines.
+"""
+
+from __future__ import annotations
+
+import json
+import os
+import shutil
+import subprocess
+import sys
+import tempfile
+import time
+from concurrent.futures import ThreadPoolExecutor
+from pathlib import Path
+
+VERIF = Path(__file__).resolve().parent.parent
+
+
+def _scratch_root():
+    for base in ("/dev/shm", os.environ.get("TMPDIR", ""), "/var/tmp", "/tmp"):
+        if base and os.path.isdir(base) and os.access(base, os.W_OK):
+            return base
+    return tempfile.gettempdir()
+
+
+def _run_variant(v, repo_root):
+    src = Path(repo_root) / "src" / "pyhf"
+    tmp = Path(tempfile.mkdtemp(prefix="pyhfsa-audit-", dir=_scratch_root()))
+    try:
+        shutil.copytree(src, tmp / "src" / "pyhf", ignore=shutil.ignore_patterns("__pycache__"))
+        applied = True
+        for rel, old, new in v["edits"]:
+            p = tmp / rel
+            if not p.exists():
+                applied = False
+                break
+            text = p.read_text()
+            if text.count(old) != 1:
+                applied = False
+                break
+            p.write_text(text.replace(old, new))
+        if not applied:
+            return {**_pub(v), "status": "skipped", "why": "anchor text not found exactly once (tree differs from the pinned one)"}
+        # the variant must still compile
+        for rel, _, _ in v["edits"]:
+            try:
+                compile((tmp / rel).read_text(), rel, "exec")
+            except SyntaxError as e:
+                return {**_pub(v), "status": "broken-variant", "why": str(e)}
+        cmd = [sys.executable, "-m", "pyhfsa", "check", v["prop"], "--tier", "quick", "--repo", str(tmp), "--no-evidence"]
+        pr = subprocess.run(cmd, cwd=str(VERIF), capture_output=True, text=True, timeout=300)
+        out = pr.stdout
+        fired_rules = sorted({ln.split()[1] for ln in out.splitlines() if ln.strip().startswith("rule ")})
+        if v["expect"] == "fire":
+            ok = pr.returncode == 1 and (not v.get("rule") or v["rule"] in fired_rules)
+        else:
+            ok = pr.returncode == v.get("base_rc", 0) and set(fired_rules) <= set(v.get("base_rules", []))
+        return {**_pub(v), "status": "ok" if ok else "MISMATCH", "rc": pr.returncode, "fired": fired_rules,
+                "detail": "" if ok else out[-1500:]}
+    finally:
+        shutil.rmtree(tmp, ignore_errors=True)
+
+
+def _pub(v):
+    return {"id": v["id"], "prop": v["prop"], "expect": v["expect"], "rule": v.get("rule", ""), "what": v.get("what", "")}
 
 
 def run_audit(props, repo_root, jobs=16, into_evidence=False, verbose=False):
-    return 0
+    from . import variants as V
+
+    t0 = time.time()
+    todo = [v for v in V.VARIANTS if v["prop"] in props]
+    # baseline verdict of each property on this tree (silent variants must reproduce it)
+    base = {}
+    for p in sorted({v["prop"] for v in todo if v["expect"] == "silent"}):
+        pr = subprocess.run([sys.executable, "-m", "pyhfsa", "check", p, "--repo", str(repo_root), "--no-evidence"], cwd=str(VERIF), capture_output=True, text=True)
+        base[p] = (pr.returncode, sorted({ln.split()[1] for ln in pr.stdout.splitlines() if ln.strip().startswith("rule ")}))
+    for v in todo:
+        if v["expect"] == "silent":
+            v["base_rc"], v["base_rules"] = base[v["prop"]]
+    with ThreadPoolExecutor(max_workers=jobs) as ex:
+        results = list(ex.map(lambda v: _run_variant(v, repo_root), todo))
+    n_ok = sum(1 for r in results if r["status"] == "ok")
+    n_skip = sum(1 for r in results if r["status"] == "skipped")
+    n_bad = [r for r in results if r["status"] not in ("ok", "skipped")]
+    for r in results:
+        if verbose or r["status"] not in ("ok",):
+            print(f"AUDIT {r['status']:9s} {r['prop']} {r['id']} expect={r['expect']} rule={r['rule']} fired={r.get('fired')}")
+            if r["status"] == "MISMATCH" and verbose:
+                print(r.get("detail", ""))
+    print(f"AUDIT summary: {len(results)} variants, {n_ok} as expected, {n_skip} skipped, {len(n_bad)} mismatching, {time.time() - t0:.1f}s")
+    if into_evidence:
+        for p in props:
+            f = VERIF / "evidence" / f"{p}.json"
+            if f.exists():
+                ev = json.loads(f.read_text())
+                mine = [r for r in results if r["prop"] == p]
+                ev["coverage"]["audit"] = {
+                    "variants": len(mine),
+                    "as_expected": sum(1 for r in mine if r["status"] == "ok"),
+                    "skipped": sum(1 for r in mine if r["status"] == "skipped"),
+                    "mismatching": [r["id"] for r in mine if r["status"] not in ("ok", "skipped")],
+                    "firing_variants": [f"{r['id']}: {r['what']} -> {r['fired']}" for r in mine if r["expect"] == "fire" and r["status"] == "ok"][:60],
+                    "silent_variants": [f"{r['id']}: {r['what']}" for r in mine if r["expect"] == "silent" and r["status"] == "ok"][:40],
+                }
+                ev["wall_s"] = round(ev.get("wall_s", 0) + (time.time() - t0), 3)
+                f.write_text(json.dumps(ev, indent=1))
+    return 0 if not n_bad else 3
